@@ -110,7 +110,10 @@ type WorkerResult struct {
 	CGNodes      int            `json:"callgraph_nodes"`
 	Absorbed     []string       `json:"absorbed_helpers,omitempty"` // functions outside the baseline analysed as part of their callers
 	InlineErrors []string       `json:"inline_errors,omitempty"`
-	Renames      []string       `json:"renames,omitempty"` // baseline functions/fields recognised under a new name
+	Renames      []string       `json:"renames,omitempty"`  // baseline functions/fields recognised under a new name
+	Restored     []string       `json:"restored,omitempty"` // deleted baseline helpers given back from the baseline source
+	Folded       int            `json:"folded,omitempty"`   // stretches of code folded back into calls of restored helpers
+	RestoreError string         `json:"restore_error,omitempty"`
 	Obls         []Obligation   `json:"obligations"`
 	Rules        map[string]int `json:"rule_sites"`
 	WallS        float64        `json:"wall_s"`
